@@ -195,6 +195,14 @@ SidAuthEvents(s) ==
     \cup (IF BoundDid(s, "a11") = "s1"
           THEN {[E0 EXCEPT !.kind = "DidUpdate", !.creator = "a09", !.did = "s1", !.tx = <<"a11">>, !.datas = <<"a09">>]}
           ELSE {[E0 EXCEPT !.kind = "Binding", !.creator = "a09", !.acc = "a11", !.did = "s1"]})
+    \* the owner's own accounts submit the store themselves (a11 only while it is bound): the order is recorded, pending, until
+    \* the gateway it names declares itself Ready; it can be cancelled by whoever created it
+    \cup {[E0 EXCEPT !.kind = "Store", !.creator = c, !.provider = Gateway, !.gw = Gateway, !.owner = "s1", !.signer = "s1",
+                     !.data = "D2", !.commit = "D2", !.cseg = <<"D2">>, !.op = 1, !.dur = 3600, !.replica = 1, !.timeout = 1800,
+                     !.size = 1000, !.alias = "alD2"] : c \in (IF HasMeta(s, "D2") THEN {} ELSE {"a09", "a11"})}
+    \cup {[E0 EXCEPT !.kind = "Ready", !.creator = c, !.provider = Gateway, !.order = o.id] :
+             o \in {x \in Rng(s.orders) : x.status = OPending}, c \in {Gateway, "a08"}}
+    \cup Cancels(s)
     \cup {[E0 EXCEPT !.kind = "Blocks", !.n = 1]}
 
 \* sponsor: orders of an owner WITHOUT a payment address, paid by a sponsor (payment did d1, submitted by its address):
